@@ -11,6 +11,7 @@ import (
 	"bufio"
 	"context"
 	"encoding/json"
+	"errors"
 	"fmt"
 	"hash/fnv"
 	"math/rand"
@@ -41,18 +42,33 @@ type vDoc struct {
 }
 type vEvent struct {
 	Clock   uint32   `json:"clock"`
-	Time    int64    `json:"time"`
+	Time    int64    `json:"time"` // nanoseconds since vBase when the op says "tu":"ns", else unix seconds (old corpus files)
 	Ref     string   `json:"ref"`
 	Prevs   []string `json:"prevs"`
 	Payload string   `json:"payload"`
 	Doc     vDoc     `json:"doc"`
 }
+// vProbe: one Resolve metadata combination. H / S index an event of the set (-1 = not given, -2 = a value that
+// occurs nowhere); T is a resolve time (-1 = not given); AD = AllowDeactivated.
+type vProbe struct {
+	H  int   `json:"h"`
+	S  int   `json:"s"`
+	T  int64 `json:"t"`
+	AD bool  `json:"ad"`
+}
 type vOp struct {
 	Op      string   `json:"op"`
 	Set     int      `json:"set"`
+	TU      string   `json:"tu,omitempty"` // time unit of events[].time / times / probes[].t
 	Events  []vEvent `json:"events"`  // the event set (index = event number)
 	Arrival []int    `json:"arrival"` // arrival order (indexes into events; may repeat)
+	// Fail is parallel to Arrival: 0 = plain Add; 1 = the first write transaction of Add fails; 2 = a stop between
+	// the two write transactions (second never runs); 3 = the second write transaction runs and is rolled back;
+	// 4 = the store object is re-created (restart) before a plain Add. Adds with 1..3 return an error and the
+	// generator always re-delivers the event later.
+	Fail    []int    `json:"fail,omitempty"`
 	Times   []int64  `json:"times"`   // resolve times to probe
+	Probes  []vProbe `json:"probes,omitempty"`
 	Bodies  map[string]string `json:"bodies,omitempty"` // entry digest -> JSON (replay only; ignored by the model)
 }
 
@@ -199,12 +215,20 @@ func vMakeDoc(rng *rand.Rand, id string, otherIDs []string, deactivate bool) did
 	return d2
 }
 
-// vGenSet builds an event set for 1-2 DIDs. Shapes: creation, chains, 2/3-way forks, resolution, deactivation,
-// clock/time ties.
+// vBase: observation times are printed as nanoseconds since this instant
+var vBase = time.Unix(1600000000, 0).UTC()
+
+func vNs(t time.Time) int64 { return t.Sub(vBase).Nanoseconds() }
+
+// vGenSet builds an event set for 1-3 DIDs. Shapes: creation, chains, 2/3-way forks, resolution, deactivation,
+// clock/time ties (also ties that differ only below the second), republished identical documents.
 func vGenSet(rng *rand.Rand, set int, n int) []vGenEvent {
 	ndid := 1
-	if rng.Intn(4) == 0 {
+	switch rng.Intn(8) {
+	case 0, 1:
 		ndid = 2
+	case 2:
+		ndid = 3
 	}
 	ids := make([]string, ndid)
 	for i := range ids {
@@ -213,6 +237,7 @@ func vGenSet(rng *rand.Rand, set int, n int) []vGenEvent {
 	var out []vGenEvent
 	per := map[string][]int{} // did -> event indexes
 	baseTime := int64(1700000000)
+	subs := []int64{0, 0, 1, 999999999, 500000000, 1000, 1000000}
 	for len(out) < n {
 		id := ids[rng.Intn(ndid)]
 		var others []string
@@ -254,6 +279,9 @@ func vGenSet(rng *rand.Rand, set int, n int) []vGenEvent {
 		}
 		deact := len(mine) > 0 && rng.Intn(7) == 0
 		doc := vMakeDoc(rng, id, others, deact)
+		if len(mine) > 0 && !deact && rng.Intn(9) == 0 {
+			doc = out[mine[rng.Intn(len(mine))]].doc // the same bytes published again by another transaction
+		}
 		raw, _ := json.Marshal(doc)
 		var t int64
 		switch rng.Intn(3) {
@@ -264,15 +292,49 @@ func vGenSet(rng *rand.Rand, set int, n int) []vGenEvent {
 		case 2:
 			t = baseTime + int64(len(out))
 		}
+		var sub int64
+		if rng.Intn(3) == 0 {
+			sub = subs[rng.Intn(len(subs))] // signing times that differ (or tie) only below the second
+		}
 		tx := Transaction{
 			Clock:       clock,
-			SigningTime: time.Unix(t, 0).UTC(),
+			SigningTime: time.Unix(t, sub).UTC(),
 			Ref:         hash.SHA256Sum([]byte(fmt.Sprintf("ref-%d-%d-%d", set, len(out), rng.Int63()))),
 			PayloadHash: hash.SHA256Sum(raw),
 			Previous:    prevs,
 		}
 		per[id] = append(per[id], len(out))
 		out = append(out, vGenEvent{doc: doc, tx: tx})
+	}
+	return out
+}
+
+// vGenProbes: Resolve metadata combinations the fixed probes of vObserve do not cover (hash+time, hash+source tx,
+// source tx without AllowDeactivated, values that occur nowhere, ...). Chosen per event set, so that every arrival
+// order of the set is asked the same questions.
+func vGenProbes(rng *rand.Rand, n int, times []int64) []vProbe {
+	var out []vProbe
+	pick := func() int {
+		switch rng.Intn(5) {
+		case 0, 1:
+			return -1
+		case 2:
+			if rng.Intn(4) == 0 {
+				return -2
+			}
+		}
+		return rng.Intn(n)
+	}
+	k := 10 + 2*n
+	for len(out) < k {
+		p := vProbe{H: pick(), S: pick(), T: -1, AD: rng.Intn(2) == 0}
+		if rng.Intn(2) == 0 && len(times) > 0 {
+			p.T = times[rng.Intn(len(times))]
+		}
+		if p.H == -1 && p.S == -1 {
+			continue // covered by the fixed probes
+		}
+		out = append(out, p)
 	}
 	return out
 }
@@ -302,13 +364,18 @@ func vPermutations(n int) [][]int {
 // ---- observation ---------------------------------------------------------------------
 
 type vObserver struct {
-	s      *store
-	known  map[string]bool // payload hashes of the set (named by their hex prefix)
+	s *store
 }
 
 func vNoNorm(x string) string { return x }
 
 func vShort(h hash.SHA256Hash) string { return h.String()[:10] }
+
+func vContentName(d did.Document) string {
+	f := fnv.New64a()
+	f.Write([]byte(vDocString(vRenderDoc(d, vNoNorm))))
+	return fmt.Sprintf("H%016x", f.Sum64())
+}
 
 // hashName names a document hash by the content it addresses (FNV-1a 64 of the canonical rendering of
 // the document on the document shelf) — the model does the same, so a merged document that is
@@ -323,22 +390,11 @@ func (o *vObserver) hashName(h hash.SHA256Hash) string {
 	if err != nil {
 		return "?" + vShort(h)
 	}
-	f := fnv.New64a()
-	f.Write([]byte(vDocString(vRenderDoc(d, vNoNorm))))
-	return fmt.Sprintf("H%016x", f.Sum64())
+	return vContentName(d)
 }
 
-func (o *vObserver) resolve(id did.DID, md *resolver.ResolveMetadata) string {
-	doc, meta, err := o.s.Resolve(id, md)
-	if err != nil {
-		switch {
-		case err == resolver.ErrNotFound:
-			return "err:not-found"
-		case err == resolver.ErrDeactivated:
-			return "err:deactivated"
-		}
-		return "err:other:" + err.Error()
-	}
+// showDocMeta: canonical line for a (document, resolver metadata) pair as handed out by Resolve / Iterate / Conflicted
+func (o *vObserver) showDocMeta(doc did.Document, meta resolver.DocumentMetadata) string {
 	var src []string
 	for _, s := range meta.SourceTransactions {
 		src = append(src, vShort(s))
@@ -347,12 +403,60 @@ func (o *vObserver) resolve(id did.DID, md *resolver.ResolveMetadata) string {
 	if meta.PreviousHash != nil {
 		prev = o.hashName(*meta.PreviousHash)
 	}
-	upd := meta.Created.Unix()
+	upd := "-"
 	if meta.Updated != nil {
-		upd = meta.Updated.Unix()
+		upd = strconv.FormatInt(vNs(*meta.Updated), 10)
 	}
-	return fmt.Sprintf("ok doc=%s created=%d updated=%d hash=%s prev=%s src=[%s] deact=%v",
-		vDocString(vRenderDoc(*doc, vNoNorm)), meta.Created.Unix(), upd, o.hashName(meta.Hash), prev, strings.Join(src, ","), meta.Deactivated)
+	return fmt.Sprintf("ok doc=%s created=%d updated=%s hash=%s prev=%s src=[%s] deact=%v",
+		vDocString(vRenderDoc(doc, vNoNorm)), vNs(meta.Created), upd, o.hashName(meta.Hash), prev, strings.Join(src, ","), meta.Deactivated)
+}
+
+func vErrName(err error) string {
+	switch {
+	case err == resolver.ErrNotFound:
+		return "err:not-found"
+	case err == resolver.ErrDeactivated:
+		return "err:deactivated"
+	case err == storage.ErrNotFound:
+		return "err:storage-not-found"
+	}
+	return "err:other:" + err.Error()
+}
+
+func (o *vObserver) resolve(id did.DID, md *resolver.ResolveMetadata) (res string) {
+	defer func() {
+		if r := recover(); r != nil {
+			res = "panic:Resolve"
+		}
+	}()
+	doc, meta, err := o.s.Resolve(id, md)
+	if err != nil {
+		return vErrName(err)
+	}
+	return o.showDocMeta(*doc, *meta)
+}
+
+// history: HistorySinceVersion as "version:created:updated:contentname" per returned document
+func (o *vObserver) history(id did.DID, v int) (res string) {
+	defer func() {
+		if r := recover(); r != nil {
+			res = "panic:HistorySinceVersion"
+		}
+	}()
+	h, err := o.s.HistorySinceVersion(id, v)
+	if err != nil {
+		return vErrName(err)
+	}
+	var parts []string
+	for _, m := range h {
+		var d did.Document
+		name := "?unparsable"
+		if json.Unmarshal(m.Raw, &d) == nil {
+			name = vContentName(d)
+		}
+		parts = append(parts, fmt.Sprintf("%d:%d:%d:%s", m.Version, vNs(m.Created), vNs(m.Updated), name))
+	}
+	return "ok [" + strings.Join(parts, " ") + "]"
 }
 
 func vNewStore(t *testing.T, path string) (*store, stoabs.KVStore) {
@@ -364,13 +468,54 @@ func vNewStore(t *testing.T, path string) (*store, stoabs.KVStore) {
 	return s, db
 }
 
-func vToOpEvents(evs []vGenEvent) ([]vEvent, []int64, map[string]did.DID, map[string]bool) {
+// vFailDB injects a failure into the k-th Write call: mode 1 = the call fails without running, mode 3 = the call
+// runs and is rolled back (the function's work is discarded by returning an error from inside the transaction).
+type vFailDB struct {
+	stoabs.KVStore
+	calls  int
+	failAt int
+	mode   int
+}
+
+var vErrInjected = errors.New("verif: injected storage failure")
+
+func (f *vFailDB) Write(ctx context.Context, fn func(stoabs.WriteTx) error, opts ...stoabs.TxOption) error {
+	f.calls++
+	if f.calls != f.failAt {
+		return f.KVStore.Write(ctx, fn, opts...)
+	}
+	if f.mode == 1 {
+		return vErrInjected
+	}
+	return f.KVStore.Write(ctx, func(tx stoabs.WriteTx) error {
+		if err := fn(tx); err != nil {
+			return err
+		}
+		return vErrInjected
+	}, opts...)
+}
+
+// vAddFailing runs store.Add with a failure injected as the op's fail code says (see vOp.Fail)
+func vAddFailing(s *store, e vGenEvent, code int) (err error) {
+	real := s.db
+	defer func() { s.db = real }()
+	switch code {
+	case 1:
+		s.db = &vFailDB{KVStore: real, failAt: 1, mode: 1}
+	case 2:
+		s.db = &vFailDB{KVStore: real, failAt: 2, mode: 1}
+	case 3:
+		s.db = &vFailDB{KVStore: real, failAt: 2, mode: 3}
+	}
+	return s.Add(e.doc, e.tx)
+}
+
+func vToOpEvents(evs []vGenEvent) ([]vEvent, []int64, map[string]did.DID) {
 	var out []vEvent
 	timesSet := map[int64]bool{}
 	dids := map[string]did.DID{}
-	known := map[string]bool{}
 	for _, e := range evs {
-		ve := vEvent{Clock: e.tx.Clock, Time: e.tx.SigningTime.Unix(), Ref: e.tx.Ref.String(),
+		ve := vEvent{Clock: e.tx.Clock, Time: vNs(e.tx.SigningTime), Ref: e.tx.Ref.String(),
 			Payload: e.tx.PayloadHash.String(), Doc: vRenderDoc(e.doc, vNoNorm), Prevs: []string{}}
 		for _, p := range e.tx.Previous {
 			ve.Prevs = append(ve.Prevs, p.String())
@@ -379,20 +524,21 @@ func vToOpEvents(evs []vGenEvent) ([]vEvent, []int64, map[string]did.DID, map[st
 		timesSet[ve.Time] = true
 		timesSet[ve.Time-1] = true
 		dids[e.doc.ID.String()] = e.doc.ID
-		known[e.tx.PayloadHash.String()] = true
 	}
 	var times []int64
 	for tm := range timesSet {
 		times = append(times, tm)
 	}
 	sort.Slice(times, func(i, j int) bool { return times[i] < times[j] })
-	return out, times, dids, known
+	return out, times, dids
 }
+
+var vUnknownHash = hash.SHA256Sum([]byte("verif: occurs nowhere"))
 
 // vObserve prints the full canonical observable state of the store for the DIDs of the set.
 // Probe results are de-duplicated: each distinct result gets an index in order of first appearance.
-func vObserve(s *store, evs []vGenEvent, times []int64, dids map[string]did.DID, known map[string]bool) string {
-	obs := &vObserver{s: s, known: known}
+func vObserve(s *store, evs []vGenEvent, times []int64, dids map[string]did.DID, probes []vProbe) string {
+	obs := &vObserver{s: s}
 	var didKeys []string
 	for k := range dids {
 		didKeys = append(didKeys, k)
@@ -412,14 +558,44 @@ func vObserve(s *store, evs []vGenEvent, times []int64, dids map[string]did.DID,
 	}
 	cc, _ := s.ConflictedCount()
 	dc, _ := s.DocumentCount()
-	line = append(line, fmt.Sprintf("cc=%d dc=%d", cc, dc))
+	// the three iterators of the store: Conflicted (in-memory cache), Iterate (latest shelf), Finder (consumer of Iterate)
+	conf := map[string]string{}
+	nconf := 0
+	_ = s.Conflicted(func(doc did.Document, md resolver.DocumentMetadata) error {
+		nconf++
+		conf[doc.ID.String()] = obs.showDocMeta(doc, md)
+		return nil
+	})
+	iter := map[string]string{}
+	var iterOrder []string
+	_ = s.Iterate(func(doc did.Document, md resolver.DocumentMetadata) error {
+		iterOrder = append(iterOrder, doc.ID.String())
+		iter[doc.ID.String()] = obs.showDocMeta(doc, md)
+		return nil
+	})
+	found := map[string]string{}
+	nfound := 0
+	if docs, err := (Finder{Store: s}).Find(resolver.IsActive()); err == nil {
+		for _, d := range docs {
+			nfound++
+			found[d.ID.String()] = vDocString(vRenderDoc(d, vNoNorm))
+		}
+	}
+	line = append(line, fmt.Sprintf("cc=%d dc=%d nconf=%d niter=%d nactive=%d iter=[%s]", cc, dc, nconf, len(iterOrder), nfound, strings.Join(iterOrder, ",")))
+	get := func(m map[string]string, k string) string {
+		if v, ok := m[k]; ok {
+			return v
+		}
+		return "-"
+	}
 	for _, dk := range didKeys {
 		id := dids[dk]
 		line = append(line, "DID "+dk)
 		probe("nil:", obs.resolve(id, nil))
 		probe("ad:", obs.resolve(id, &resolver.ResolveMetadata{AllowDeactivated: true}))
+		probe("nad:", obs.resolve(id, &resolver.ResolveMetadata{}))
 		for _, tm := range times {
-			tt := time.Unix(tm, 0)
+			tt := vBase.Add(time.Duration(tm))
 			probe(fmt.Sprintf("t%d:", tm), obs.resolve(id, &resolver.ResolveMetadata{ResolveTime: &tt}))
 			probe(fmt.Sprintf("ta%d:", tm), obs.resolve(id, &resolver.ResolveMetadata{ResolveTime: &tt, AllowDeactivated: true}))
 		}
@@ -429,14 +605,42 @@ func vObserve(s *store, evs []vGenEvent, times []int64, dids map[string]did.DID,
 			ph := e.tx.PayloadHash
 			probe(fmt.Sprintf("h%d:", i), obs.resolve(id, &resolver.ResolveMetadata{Hash: &ph, AllowDeactivated: true}))
 		}
-		conf := false
-		_ = s.Conflicted(func(doc did.Document, _ resolver.DocumentMetadata) error {
-			if doc.ID.String() == dk {
-				conf = true
+		for k, p := range probes {
+			md := &resolver.ResolveMetadata{AllowDeactivated: p.AD}
+			if p.H >= 0 && p.H < len(evs) {
+				h := evs[p.H].tx.PayloadHash
+				md.Hash = &h
+			} else if p.H == -2 {
+				h := vUnknownHash
+				md.Hash = &h
 			}
-			return nil
-		})
-		line = append(line, fmt.Sprintf("conflicted=%v", conf))
+			if p.S >= 0 && p.S < len(evs) {
+				r := evs[p.S].tx.Ref
+				md.SourceTransaction = &r
+			} else if p.S == -2 {
+				r := vUnknownHash
+				md.SourceTransaction = &r
+			}
+			if p.T >= 0 {
+				tt := vBase.Add(time.Duration(p.T))
+				md.ResolveTime = &tt
+			}
+			probe(fmt.Sprintf("p%d:", k), obs.resolve(id, md))
+		}
+		probe("conf:", get(conf, dk))
+		probe("iter:", get(iter, dk))
+		probe("active:", get(found, dk))
+		nmine := 0
+		for _, e := range evs {
+			if e.doc.ID.String() == dk {
+				nmine++
+			}
+		}
+		for v := 0; v <= nmine+1; v++ {
+			probe(fmt.Sprintf("hist%d:", v), obs.history(id, v))
+		}
+		_, isConf := conf[dk]
+		line = append(line, fmt.Sprintf("conflicted=%v", isConf))
 	}
 	out := strings.Join(line, " | ")
 	for i, r := range table {
@@ -487,19 +691,41 @@ func TestVerifC10(t *testing.T) {
 		f.Close()
 	}
 	dbN := 0
-	runSeq := func(set int, evs []vGenEvent, arrival []int) {
+	runSeq := func(set int, evs []vGenEvent, arrival []int, fail []int, probes []vProbe) {
 		dbN++
 		path := filepath.Join(outDir, fmt.Sprintf("db%d.db", dbN))
 		s, db := vNewStore(t, path)
 		addErrs := ""
 		for pos, k := range arrival {
-			if err := s.Add(evs[k].doc, evs[k].tx); err != nil {
-				// an accepted transaction that the store refuses in this arrival order is an observable outcome
-				addErrs += fmt.Sprintf("adderr@%d(ev%d) ", pos, k)
+			code := 0
+			if pos < len(fail) {
+				code = fail[pos]
 			}
+			if code == 4 { // restart: a new store object on the same database, then a plain Add
+				s = New(&storage.StaticKVStoreProvider{Store: db}).(*store)
+				if err := s.Configure(core.ServerConfig{}); err != nil {
+					t.Fatal(err)
+				}
+				code = 0
+			}
+			func() {
+				defer func() {
+					if r := recover(); r != nil {
+						addErrs += fmt.Sprintf("addpanic@%d(ev%d) ", pos, k)
+					}
+				}()
+				err := vAddFailing(s, evs[k], code)
+				switch {
+				case code == 0 && err != nil:
+					// an accepted transaction that the store refuses in this arrival order is an observable outcome
+					addErrs += fmt.Sprintf("adderr@%d(ev%d) ", pos, k)
+				case code != 0 && err == nil:
+					addErrs += fmt.Sprintf("addswallowed@%d(ev%d) ", pos, k)
+				}
+			}()
 		}
-		opEvents, times, dids, known := vToOpEvents(evs)
-		op := vOp{Op: "seq", Set: set, Arrival: arrival, Events: opEvents, Times: times, Bodies: map[string]string{}}
+		opEvents, times, dids := vToOpEvents(evs)
+		op := vOp{Op: "seq", Set: set, TU: "ns", Arrival: arrival, Fail: fail, Events: opEvents, Times: times, Probes: probes, Bodies: map[string]string{}}
 		for _, e := range opEvents {
 			for _, l := range e.Doc.F {
 				for _, en := range l {
@@ -512,7 +738,7 @@ func TestVerifC10(t *testing.T) {
 		b, _ := json.Marshal(op)
 		opsW.Write(b)
 		opsW.WriteByte('\n')
-		implW.WriteString(addErrs + vObserve(s, evs, times, dids, known))
+		implW.WriteString(addErrs + vObserve(s, evs, times, dids, probes))
 		implW.WriteByte('\n')
 		// restart: a fresh store object on the same database must give the same answers (conflicted cache reload)
 		s2 := New(&storage.StaticKVStoreProvider{Store: db}).(*store)
@@ -520,14 +746,14 @@ func TestVerifC10(t *testing.T) {
 			t.Fatal(err)
 		}
 		opsW.WriteString(`{"op":"again"}` + "\n")
-		implW.WriteString(vObserve(s2, evs, times, dids, known))
+		implW.WriteString(vObserve(s2, evs, times, dids, probes))
 		implW.WriteByte('\n')
 		db.Close(context.Background())
 		os.Remove(path)
 	}
 	if replayOps != nil {
 		for _, op := range replayOps {
-			runSeq(op.Set, vFromOp(op), op.Arrival)
+			runSeq(op.Set, vFromOp(op), op.Arrival, op.Fail, op.Probes)
 		}
 		return
 	}
@@ -546,13 +772,13 @@ func TestVerifC10(t *testing.T) {
 				var op vOp
 				if json.Unmarshal(sc.Bytes(), &op) == nil && op.Op == "seq" {
 					evs := vFromOp(op)
-					runSeq(-1-fi, evs, op.Arrival)
+					runSeq(-1-fi, evs, op.Arrival, op.Fail, op.Probes)
 					// and the reverse arrival order
 					rev := append([]int(nil), op.Arrival...)
 					for i, j := 0, len(rev)-1; i < j; i, j = i+1, j-1 {
 						rev[i], rev[j] = rev[j], rev[i]
 					}
-					runSeq(-1-fi, evs, rev)
+					runSeq(-1-fi, evs, rev, nil, op.Probes)
 				}
 			}
 			f.Close()
@@ -560,15 +786,24 @@ func TestVerifC10(t *testing.T) {
 	}
 	for set := 0; set < nSets; set++ {
 		n := 1 + rng.Intn(6)
-		if rng.Intn(5) == 0 {
+		switch rng.Intn(10) {
+		case 0, 1:
 			n = 7 + rng.Intn(3)
+		case 2:
+			n = 10 + rng.Intn(4) // two-digit version numbers in the metadata keys
 		}
 		evs := vGenSet(rand.New(rand.NewSource(rng.Int63())), set, n)
+		_, times, _ := vToOpEvents(evs)
+		probes := vGenProbes(rng, n, times)
 		var orders [][]int
+		perms := maxPerms
+		if n >= 10 {
+			perms = maxPerms / 4
+		}
 		if n <= 5 {
 			orders = vPermutations(n)
 		} else {
-			for k := 0; k < maxPerms-1; k++ {
+			for k := 0; k < perms-1; k++ {
 				orders = append(orders, rng.Perm(n))
 			}
 			id := make([]int, n)
@@ -577,9 +812,9 @@ func TestVerifC10(t *testing.T) {
 			}
 			orders = append(orders, id)
 		}
-		if len(orders) > maxPerms {
+		if len(orders) > perms {
 			rng.Shuffle(len(orders), func(i, j int) { orders[i], orders[j] = orders[j], orders[i] })
-			orders = orders[:maxPerms]
+			orders = orders[:perms]
 		}
 		for _, order := range orders {
 			arrival := append([]int(nil), order...)
@@ -588,7 +823,25 @@ func TestVerifC10(t *testing.T) {
 				dup := arrival[rng.Intn(len(arrival))]
 				arrival = append(arrival[:pos], append([]int{dup}, arrival[pos:]...)...)
 			}
-			runSeq(set, evs, arrival)
+			var fail []int
+			if rng.Intn(5) == 0 { // storage failures inside Add (the event is delivered again later) and restarts
+				fail = make([]int, len(arrival))
+				for k := 1 + rng.Intn(2); k > 0; k-- {
+					pos := rng.Intn(len(arrival))
+					code := 1 + rng.Intn(4)
+					if fail[pos] != 0 {
+						continue
+					}
+					fail[pos] = code
+					if code != 4 {
+						// re-delivery at a later position
+						at := pos + 1 + rng.Intn(len(arrival)-pos)
+						arrival = append(arrival[:at], append([]int{arrival[pos]}, arrival[at:]...)...)
+						fail = append(fail[:at], append([]int{0}, fail[at:]...)...)
+					}
+				}
+			}
+			runSeq(set, evs, arrival, fail, probes)
 		}
 	}
 }
@@ -630,7 +883,11 @@ func vFromOp(op vOp) []vGenEvent {
 		}
 		ref, _ := hash.ParseHex(e.Ref)
 		ph, _ := hash.ParseHex(e.Payload)
-		tx := Transaction{Clock: e.Clock, SigningTime: time.Unix(e.Time, 0).UTC(), Ref: ref, PayloadHash: ph}
+		st := time.Unix(e.Time, 0).UTC()
+		if op.TU == "ns" {
+			st = vBase.Add(time.Duration(e.Time))
+		}
+		tx := Transaction{Clock: e.Clock, SigningTime: st, Ref: ref, PayloadHash: ph}
 		for _, p := range e.Prevs {
 			h, _ := hash.ParseHex(p)
 			tx.Previous = append(tx.Previous, h)
